@@ -2,6 +2,7 @@ package clusterinfo
 
 import (
 	"encoding/json"
+	"fmt"
 	"net"
 	"sort"
 	"strconv"
@@ -63,6 +64,10 @@ func (p *Producer) UnmarshalJSON(b []byte) error {
 		Version:          r.Version,
 		TopologyZone:     r.TopologyZone,
 		TopologyRegion:   r.TopologyRegion,
+	}
+	if len(r.Tombstoned) != len(r.Topics) {
+		return fmt.Errorf("producer %s:%d - %d topics but %d tombstones",
+			r.BroadcastAddress, r.TCPPort, len(r.Topics), len(r.Tombstoned))
 	}
 	for i, t := range r.Topics {
 		p.Topics = append(p.Topics, ProducerTopic{Topic: t, Tombstoned: r.Tombstoned[i]})
